@@ -3,8 +3,8 @@
 # /repo itself), runs checks with /tmp/akv (or bin), reverts
 export GOFLAGS=-mod=mod GOPROXY=off GOSUMDB=off GOTOOLCHAIN=local; unset GOWORK
 patch=$(readlink -f $1); shift
-bin=/tmp/akv; [ -x $bin ] || bin=/verif/bin/akverif
-wt=/tmp/trywt; [ -d $wt ] || git -C /repo worktree add -q --detach $wt HEAD || exit 3
+bin=${AKV:-/tmp/akv}; [ -x $bin ] || bin=/verif/bin/akverif
+wt=${WT:-/tmp/trywt}; [ -d $wt ] || git -C /repo worktree add -q --detach $wt HEAD || exit 3
 git -C $wt checkout -q -- . ; git -C $wt apply $patch || exit 3
 mkdir -p /tmp/akvhome/evidence; cp /verif/known_findings.json /tmp/akvhome/
 for c in "$@"; do
